@@ -662,7 +662,10 @@ func worldRoutes(w *World) {
 		env.probeHTTP(warmHost, "/", 8*time.Second) // takes the pooled work connection; its replacement will be late
 		pending := make(chan struct{})
 		pendingServedBy := ""
-		go func() { defer close(pending); pendingServedBy, _, _ = env.probeHTTP(handHost, "/pending", 10*time.Second) }()
+		go func() {
+			defer close(pending)
+			pendingServedBy, _, _ = env.probeHTTP(handHost, "/pending", 10*time.Second)
+		}()
 		time.Sleep(300 * time.Millisecond)
 		a.CloseProxy(hand.name)
 		syncCtl(a)
